@@ -59,6 +59,12 @@ func (a *MajorityStrategy) Compute(snapshots <-chan *asset.Snapshot) <-chan Acti
 				result <- Hold
 			}
 		}
+
+		// The sources may differ in length. Consume what is left of the longer ones so
+		// that the sub-strategy pipelines feeding them can finish.
+		for _, source := range sources {
+			go helper.Drain(source)
+		}
 	}()
 
 	return result
